@@ -18,6 +18,10 @@ structure Params where
   filesUnderServiceId : Bool
   /-- the dial address is taken from the message received for the dialled id -/
   dialsReceivedAddr : Bool
+  /-- `Run` hands a message to its slot with a non-blocking send (`select` with `default`) -/
+  runParkNonBlocking : Bool
+  /-- `getClientStream` looks the id up and creates the missing entry in ONE critical section -/
+  getStreamAtomic : Bool
   /-- capacity of `gRPCBrokerPending.ch` -/
   slotCap : Nat
   /-- `time.After` in `DialWithOptions` (ms) -/
@@ -27,7 +31,7 @@ structure Params where
   deriving DecidableEq, Repr
 
 def Params.Good (P : Params) : Prop :=
-  P.filesUnderServiceId = true ∧ P.dialsReceivedAddr = true ∧ P.slotCap = 1
+  P.filesUnderServiceId = true ∧ P.dialsReceivedAddr = true ∧ P.runParkNonBlocking = true ∧ P.getStreamAtomic = true ∧ P.slotCap = 1
 
 instance (P : Params) : Decidable P.Good := by unfold Params.Good; exact inferInstance
 
@@ -69,6 +73,8 @@ structure Dial where
 inductive RunPc
   | idle
   | have (k : Nat) (m : Msg)
+  /-- blocked in `p.ch <- msg` on a full slot (only possible with a blocking send) -/
+  | blocked (k : Nat) (m : Msg)
   deriving DecidableEq, Repr
 
 inductive TwPc | wait | decided | finished
@@ -109,8 +115,13 @@ inductive Event
   | runRecv
   /-- dialling side `Run`: non-blocking send into the slot -/
   | runPark
+  /-- a blocked `Run` gets its message into the slot after a dialler emptied it -/
+  | runUnblock
   /-- a caller enters `Dial(id)` -/
   | dial (id : Nat)
+  /-- `Dial(id)` racing with another creator of the same entry (lookup and insert in different critical
+  sections): it ends up with an entry of its own and overwrites the map -/
+  | dialRacy (id : Nat)
   /-- the dialler receives the conn-info, closes `doneCh` and dials the address -/
   | dialTake (g : Nat)
   | dialTimeout (g : Nat)
@@ -156,9 +167,25 @@ def step (P : Params) (s : State) : Event → Option State
       | some sl =>
         match sl.buf with
         | none => some { s with run := .idle, slots := upd s.slots k (some { sl with buf := some m }) }
-        | some _ => some { s with run := .idle }        -- dropped: that listener is never dialled
+        | some _ =>
+          if P.runParkNonBlocking then some { s with run := .idle }        -- dropped: that listener is never dialled
+          else some { s with run := .blocked k m }
       | none => none
-    | .idle => none
+    | _ => none
+  | .runUnblock =>
+    match s.run with
+    | .blocked k m =>
+      match s.slots k with
+      | some sl =>
+        match sl.buf with
+        | none => some { s with run := .idle, slots := upd s.slots k (some { sl with buf := some m }) }
+        | some _ => none
+      | none => none
+    | _ => none
+  | .dialRacy id =>
+    if P.getStreamAtomic then none else
+    some { s with map := upd s.map id (some s.nSlots), slots := upd s.slots s.nSlots (some ⟨id, none, false⟩), nSlots := s.nSlots + 1,
+                  dials := upd s.dials s.nDials (some ⟨id, s.nSlots, s.now + P.dialWindow, .wait⟩), nDials := s.nDials + 1 }
   | .dial id =>
     let r := getStream s id
     some { r.1 with dials := upd r.1.dials s.nDials (some ⟨id, r.2, s.now + P.dialWindow, .wait⟩), nDials := s.nDials + 1 }
